@@ -85,6 +85,8 @@ impl From<&Model> for EnergyProps {
             sch_year.insert(s.id, e);
         }
 
+        #[cfg(cteenergymodel_verif)]
+        crate::verif_hooks::point("props:loads");
         // Propiedades de cargas -----------------------------------------------
 
         // Caché de valores medios y acceso a la misma
@@ -159,6 +161,8 @@ impl From<&Model> for EnergyProps {
             wincons.insert(wc.id, wcp);
         }
 
+        #[cfg(cteenergymodel_verif)]
+        crate::verif_hooks::point("props:elements");
         // Propiedades de elementos --------------------------------------------
 
         // Propiedades de espacios
@@ -280,6 +284,8 @@ impl From<&Model> for EnergyProps {
             shades.insert(s.id, sp);
         }
 
+        #[cfg(cteenergymodel_verif)]
+        crate::verif_hooks::point("props:global");
         // Propiedades globales ------------------------------------------------
 
         let a_ref: f32 = fround2(
@@ -366,6 +372,8 @@ impl From<&Model> for EnergyProps {
             29.0
         };
 
+        #[cfg(cteenergymodel_verif)]
+        crate::verif_hooks::point("props:occupancy");
         // Indicadores de ocupación y cargas -----------------------------------
 
         // Tiempo anual de ocupación
@@ -462,6 +470,8 @@ impl From<&Model> for EnergyProps {
             occ_spaces_average_load,
         };
 
+        #[cfg(cteenergymodel_verif)]
+        crate::verif_hooks::point("props:result");
         // Resultado final -----------------------------------------------------
 
         Self {
